@@ -93,6 +93,13 @@ def cases(ctx, tier):
             if k < 0: continue
             if n > 2000 and k > 8: continue
             out.append(('mpz_bin_uiui %x %x 0' % (n, k), 'bin_uiui'))
+    # large k (the prime-factor sieve path of bin_uiui: k above 1000 and above n/16): n twice a prime, a prime, a prime power, a
+    # multiple of small primes; k next to the path boundary, next to n/2 and in between
+    for _ in range(24 if quick else 300):
+        p_ = rng.choice([q for q in range(1009, 1400) if is_prime(q)])
+        n = rng.choice([2 * p_, 2 * p_, 2 * p_ + 1, p_ * 2 - 1, 2048, 2187, 2310, rng.randrange(2002, 2800)])
+        for k in set([1001, n // 2 - 1, n // 2, rng.randrange(1001, n // 2), n - rng.randrange(1001, n // 2)]):
+            out.append(('mpz_bin_uiui %x %x 0' % (n, k), 'bin_uiui-large-k'))
     for _ in range(200 if quick else 2000):
         n = rng.choice([signed_value(rng, 3), -rng.randrange(0, 300), rng.randrange(0, 3000), -(1 << 64), (1 << 64) + 5])
         k = rng.choice([0, 1, 2, 3, 5, 10, 17, 40])
@@ -127,6 +134,9 @@ def cases(ctx, tier):
                         1425172824437699411 - rng.randrange(0, 5)])   # start of a maximal prime gap (1132) below 2^64
         out.append(('mpz_nextprime %x' % n, 'nextprime'))
     out.append(('mpz_nextprime -5', 'nextprime-neg'))
+    # every start below 3000: the crossover from the table of small primes to the sieve lies in here
+    for n in range(0, 1400 if quick else 3000):
+        out.append(('mpz_nextprime %x' % n, 'nextprime-small-exhaustive'))
     return out
 
 
@@ -151,6 +161,19 @@ def extra(ctx):
         lines.append('mpz_primorial_ui %x 1' % n)
         pr = [i for i in range(2, n + 1) if sv[i]]
         exp.append(['1'] + ['%x' % __import__('functools').reduce(lambda a, k, p=p: a * k % p, pr, 1) for p in MODS])
+    # binomials on the prime-factor sieve path (exact oracle: Python's math.comb reduced mod the same primes)
+    import math, random
+    r2 = random.Random('%s/C16/bin-oracle' % ctx.seed)
+    smallp = [q for q in range(1000, 160000) if sv[q]]
+    for _ in range(60 if quick else 600):
+        p_ = r2.choice(smallp)
+        n = r2.choice([2 * p_, 2 * p_, 2 * p_ + 1, p_, r2.randrange(2000, 320000)])
+        if n < 2100: continue
+        lo = max(1001, n // 16 + 1)
+        k = r2.choice([lo, n // 2 - 1, n // 2, r2.randrange(lo, n // 2 + 1), n - r2.randrange(lo, n // 2 + 1)])
+        lines.append('mpz_bin_uiui %x %x 1' % (n, k))
+        c = math.comb(n, k)
+        exp.append(['1'] + ['%x' % (c % p) for p in MODS])
     outs = vlib.run_robust(vlib.impl_cmd(ctx.impl), lines, timeout=1500, died='CRASH')
     bad = []
     for ln, o, e in zip(lines, outs, exp):
@@ -165,5 +188,5 @@ def extra(ctx):
             mo = vlib.run_robust(vlib.model_cmd(), [ln], timeout=1500, died='MODEL-DIED')[0]
             note += '; extracted Coq model on the same input: %s (%s)' % (mo[:200], 'confirms' if mo.split() == e else 'inconclusive')
         ev.append({'kind': 'sieve-size-result', 'cases': [ln], 'implementation_output': o[:400], 'expected': ' '.join(e), 'note': note, 'key': ln,
-                   'theorem': 'C16 statement: mpz_fac_ui / mpz_primorial_ui return exactly n! / the product of the primes <= n'})
+                   'theorem': 'C16 statement: mpz_fac_ui / mpz_primorial_ui / mpz_bin_uiui return exactly n! / the product of the primes <= n / C(n,k)'})
     ctx.extra_violations = ev
